@@ -83,7 +83,9 @@ THEOREMS = ["Hyp.Cqe." + t for t in (
     "c10_constant_values_unchanged", "c10_range_subst", "c10_range_error_iff", "c10_d21_regression",
     "c10_subst_pure",
     "c10_eq_is_structural",
-    "c10_structEq_refl", "c10_eq_only_on_fragment", "c10_parsed_equals_hand_built", "c10_embeds_in_query_algebra")]
+    "c10_structEq_refl", "c10_eq_only_on_fragment", "c10_parsed_equals_hand_built", "c10_embeds_in_query_algebra",
+    # composition with C04: executing the parsed object = the specification of the substituted hand-built tree
+    "c10_resolution_is_substitution", "c10_parse_substitute_execute")]
 CASES = {"quick": 8000, "thorough": 300000}
 BUDGET_S = {"quick": 40, "thorough": 700}
 BATCH = 40
